@@ -378,19 +378,22 @@ func (c *Connection) GetData(key string) (interface{}, bool) {
 
 // JoinRoom adds this connection to a room
 func (c *Connection) JoinRoom(roomName string) {
+	// roomsMu is held across both updates - the room's member set and the
+	// connection's own record - so that a concurrent LeaveRoom of the same room
+	// cannot interleave and leave the two views disagreeing.
+	c.roomsMu.Lock()
+
 	// Add to room manager synchronously to ensure the room exists
 	// before any subsequent operations (like broadcast_to_room)
 	rm := c.hub.GetRoomManager()
 	if err := rm.AddConnectionToRoom(c, roomName); err != nil {
+		c.roomsMu.Unlock()
 		// A refused join (room full) must not leave the connection believing
 		// it is a member.
 		log.Printf("[WS] Failed to join room %s: %v", roomName, err)
 		return
 	}
-
-	c.roomsMu.Lock()
 	c.rooms[roomName] = true
-	c.roomsMu.Unlock()
 
 	// The connection may have been unregistered while it was joining; the hub
 	// has then already swept the rooms, so undo the join.
@@ -399,11 +402,11 @@ func (c *Connection) JoinRoom(roomName string) {
 	c.sendMu.RUnlock()
 	if closed {
 		rm.RemoveConnectionFromRoom(c, roomName)
-		c.roomsMu.Lock()
 		delete(c.rooms, roomName)
 		c.roomsMu.Unlock()
 		return
 	}
+	c.roomsMu.Unlock()
 	log.Printf("[WS] Connection %s joined room %s", c.ID, roomName)
 }
 
@@ -411,11 +414,11 @@ func (c *Connection) JoinRoom(roomName string) {
 func (c *Connection) LeaveRoom(roomName string) {
 	c.roomsMu.Lock()
 	delete(c.rooms, roomName)
-	c.roomsMu.Unlock()
 
-	// Remove from room manager synchronously
+	// Remove from room manager synchronously (still under roomsMu, see JoinRoom)
 	rm := c.hub.GetRoomManager()
 	rm.RemoveConnectionFromRoom(c, roomName)
+	c.roomsMu.Unlock()
 	log.Printf("[WS] Connection %s left room %s", c.ID, roomName)
 }
 
